@@ -47,6 +47,7 @@ fn next_boundary(cuts: &[usize], pos: usize, len: usize) -> usize {
     .min(len)
 }
 
+#[derive(Clone)]
 pub struct ChunkedBufRead<'a> {
     pub data: &'a [u8],
     pub cuts: Vec<usize>,
